@@ -5,10 +5,13 @@ structural clauses are:
 
   C01.T  operator table: every operator card is compiled to the like-named instruction, and that instruction's arm in
          Vm::_run applies the like operator of Value.
-  C01.O  operand order: binary_op pops the right operand first and calls op(left, right); the compiler compiles children
-         in index order before emitting the operator.
+  C01.O  operand order: the method the arithmetic arms hand their operator to (binary_op) pops the right operand first and
+         calls op(left, right) - decided on the pop numbering of an abstract run, through tuple-returning pop helpers; the
+         compiler compiles children in index order before emitting the operator.
   C01.S  brackets are balanced on every non-error path of every Compiler method: scope_begin/scope_end,
          push_subindex/pop_subindex, compile_begin/compile_end (a missing scope_end shifts every later local slot).
+         A private helper that closes a bracket its callers opened is accounted in its callers: it is walked in place of
+         every call (compwalk), so the arm / function that calls it carries the balance.
   C01.B  conditionally executed children are scopes: every child card an arm of process_card compiles at or after its
          conditional jump (encode_if_then) is bracketed by scope_begin / scope_end, so a local first assigned in a body
          that may be skipped does not keep a compile-time slot that is never created at run time (which would shift every
@@ -76,29 +79,31 @@ SAME_NAMED = {"Len": "Len", "GetProperty": "GetProperty", "SetProperty": "SetPro
 
 
 def arm_emissions(F):
-    """card kind -> ordered list of instructions emitted directly in its process_card arm"""
-    from rules.c10 import instr_ctor
+    """card kind -> ordered list of instructions its process_card arm emits - in the arm itself or in the Compiler helpers it
+    calls (abstract run of the arm, ArmRun: helper parameters that carry the instruction are resolved); the compilation of
+    child cards (process_card / compile_subexpr) is not entered"""
     f = F.fn("compiler::Compiler::process_card")
     arms, _p, _t = cs.arms_of(f)
     if arms is None:
         raise AnchorMissing("match on CardBody in process_card")
     out = {}
     for arm in arms:
-        seq = []
-        for x in hir_walk(arm.body):
-            if x.get("k") in ("mcall", "call") and "compiler::Compiler::push_instruction" in hir_callee(x):
-                v = instr_ctor(x["args"][0])
-                seq.append((v if isinstance(v, str) else "?", x["ln"]))
-            if x.get("k") == "mcall" and "compiler::Compiler::emit_return" in hir_callee(x):
-                seq.append(("Return", x["ln"]))
+        run = ArmRun(F, f)
+        env = {}
+        run.bind(arm.pat, None, env)
+        run.ev(arm.body, env, 0)
+        seq = [(ev[1] if isinstance(ev[1], str) else "?", ev[2]) for ev in run.events if ev[0] == "instr"]
         for v in arm.variants:
             out[v] = (seq, arm.body.get("ln"))
     return f, out
 
 
 def vm_arm_bodies(F):
-    from rules.c10 import dispatch_fn as _dispatch_fn
-    f = _dispatch_fn(F)
+    # the function that holds the opcode switch, wherever the loop around it lives (driver + execute_instruction)
+    from rules.c03 import opcode_switch as _opcode_switch
+    f = _opcode_switch(F)[0]
+    if f.hir is None:
+        raise AnchorMissing("HIR of the function holding the opcode switch")
     out = {}
     for x in hir_walk(f.hir["body"]):
         if x.get("k") == "match" and len(x["arms"]) > 20:
@@ -107,14 +112,109 @@ def vm_arm_bodies(F):
                     if "::" in n:
                         out[n.rsplit("::", 1)[-1]] = a["body"]
     if len(out) < 30:
-        raise AnchorMissing("instruction match in Vm::_run")
+        raise AnchorMissing("instruction match in the interpreter (%s)" % f.short)
     return f, out
+
+
+def _is_binop_call(x):
+    """the arm hands a two-parameter closure (the operator) to a method of the Vm (today Vm::binary_op)"""
+    if x.get("k") != "mcall" or not x["args"]:
+        return False
+    names = hir_callee(x)
+    if "vm::Vm::binary_op" in names:
+        return True
+    clo = hir_strip(x["args"][0])
+    return clo is not None and clo.get("k") == "closure" and len(clo.get("params", [])) == 2 and len(x["args"]) == 1 and \
+        any(n.startswith("vm::Vm::") for n in names)
+
+
+def binop_applicator(F):
+    """the Vm method the arithmetic arms hand their operator closure to (found from the Add arm)"""
+    _vf, arms = vm_arm_bodies(F)
+    for x in hir_walk(arms.get("Add")) if arms.get("Add") is not None else []:
+        if _is_binop_call(x):
+            for n in hir_callee(x):
+                g = F.fn(n, required=False)
+                if g is not None and g.hir is not None:
+                    return g
+    raise AnchorMissing("the method that applies a binary operator to the two topmost stack values (called in the Add arm)")
+
+
+def pop_order(F, f):
+    """Abstract run of the operator applicator: values popped off the value stack are numbered in pop order, helpers of the
+    Vm are entered (a tuple-returning `pop_operands`), patterns bound. -> list of (value of arg 0, value of arg 1, ln) for
+    every call of a function-typed parameter with two arguments; a value is ('pop', n) | ('tuple', [..]) | None"""
+    state = {"n": 0}
+    calls_ = []
+    fparams = set()
+
+    def bind(pat, v, env):
+        k = pat.get("k")
+        if k == "bind":
+            env[pat["id"]] = v
+        elif k == "tuple":
+            vs = v[1] if v is not None and v[0] == "tuple" and len(v[1]) == len(pat["pats"]) else [None] * len(pat["pats"])
+            for q, w in zip(pat["pats"], vs):
+                bind(q, w, env)
+        elif k in ("ref", "deref", "box"):
+            bind(pat["pat"], v, env)
+
+    def block(bl, env, stack):
+        for st in bl["stmts"]:
+            if st["k"] == "let":
+                v = ev(st["init"], env, stack) if st.get("init") is not None else None
+                bind(st["pat"], v, env)
+            elif st["k"] in ("semi", "expr"):
+                ev(st["e"], env, stack)
+        return ev(bl["expr"], env, stack) if bl.get("expr") is not None else None
+
+    def ev(e, env, stack):
+        if e is None:
+            return None
+        e = hu.strip_all(e)
+        k = e.get("k")
+        if k == "path":
+            return env.get(e["path"]["res"].get("id")) if e["path"]["res"]["k"] == "local" else None
+        if k == "tup":
+            return ("tuple", [ev(x, env, stack) for x in e["elems"]])
+        if k == "block":
+            return block(e["block"], env, stack)
+        if k == "match" and str(e.get("source", "")).startswith("TryDesugar"):
+            sc = hir_strip(e["scrut"])
+            return ev(sc["args"][0], env, stack) if sc.get("k") == "call" and sc["args"] else None
+        if k in ("call", "mcall"):
+            names = hir_callee(e)
+            args = ([e["recv"]] if k == "mcall" else []) + list(e["args"])
+            if k == "call" and hir_local_id(e["f"]) is not None and len(e["args"]) == 2:
+                a, b = ev(e["args"][0], env, stack), ev(e["args"][1], env, stack)
+                calls_.append((a, b, e.get("ln")))
+                return None
+            vals = [ev(a, env, stack) for a in args]
+            if any(n.endswith("Vm::stack_pop") or n.endswith("ValueStack::pop") for n in names):
+                state["n"] += 1
+                return ("pop", state["n"])
+            for n in names:
+                g = F.fn(n, required=False)
+                if g is not None and g.hir is not None and not g.is_closure and n.startswith("vm::") and n not in stack and len(stack) < 4 \
+                        and not n.endswith("Vm::stack_push"):
+                    env2 = {}
+                    for p_, v in zip(g.hir.get("params", []), vals):
+                        bind(p_, v, env2)
+                    return ev(g.hir["body"], env2, stack + (n,))
+            return None
+        from cao.facts import hir_children
+        for c in hir_children(e):
+            ev(c, env, stack)
+        return None
+
+    ev(f.hir["body"], {}, (f.short,))
+    return calls_
 
 
 def op_of_arm(body):
     """('bin', op, callee, order_ok) for `binary_op(|a, b| a OP b)` ; ('logic', op, order_ok) for as_bool combos; ('un', op)"""
     for x in hir_walk(body):
-        if x.get("k") == "mcall" and "vm::Vm::binary_op" in hir_callee(x):
+        if _is_binop_call(x):
             clo = hir_strip(x["args"][0])
             if clo.get("k") != "closure":
                 return ("?",)
@@ -190,27 +290,17 @@ def rule_t(F):
 
 def rule_o(F):
     res = []
-    f = F.fn("vm::Vm::binary_op")
-    pops = []
-    call = None
-    for x in hir_walk(f.hir["body"]):
-        if x.get("k") == "block":
-            for st in x["block"]["stmts"]:
-                if st["k"] == "let" and st["pat"].get("k") == "bind" and st.get("init") is not None:
-                    i = hir_strip(st["init"])
-                    if i.get("k") == "mcall" and any(n.endswith("stack_pop") or n.endswith("ValueStack::pop") for n in hir_callee(i)):
-                        pops.append((st["pat"]["id"], st["pat"]["name"]))
-        if x.get("k") == "call" and hir_local_id(x["f"]) is not None and len(x["args"]) == 2:
-            call = x
-    if len(pops) != 2 or call is None:
-        res.append(undecided("C01.O", "C01/O/binary_op/pop-order", f.loc(), "binary_op shape not recognised"))
+    f = binop_applicator(F)
+    applied = pop_order(F, f)
+    key = "C01/O/binary_op/pop-order"
+    if len(applied) != 1 or any(v is None or v[0] != "pop" for v in applied[0][:2]):
+        res.append(undecided("C01.O", key, f.loc(), "binary_op shape not recognised"))
     else:
-        first, second = pops[0][0], pops[1][0]
-        a0, a1 = hir_local_id(call["args"][0]), hir_local_id(call["args"][1])
-        if a0 == second and a1 == first:
-            res.append(ok("C01.O", "C01/O/binary_op/pop-order", f.loc(call["ln"]), "the value popped first is the right operand: op(%s, %s)" % (pops[1][1], pops[0][1])))
+        a0, a1, ln = applied[0]
+        if (a0[1], a1[1]) == (2, 1):
+            res.append(ok("C01.O", key, f.loc(ln), "the value popped first is the right operand: op(second popped, first popped)"))
         else:
-            res.append(bad("C01.O", "C01/O/binary_op/pop-order", f.loc(call["ln"]),
+            res.append(bad("C01.O", key, f.loc(ln),
                            "binary_op passes the operands in the wrong order: the compiler pushes the left child first, so the value popped "
                            "first is the right operand"))
     # operator closures use (a, b) in order
@@ -232,10 +322,34 @@ def rule_o(F):
 BRACKETS = ("scope_begin", "scope_end", "compile_begin", "compile_end")
 
 
+class _SWalk(cw.Walk):
+    """compwalk.Walk that also records which Compiler helpers were walked in place of a call (`inlined`) and which helpers
+    that move the bookkeeping could NOT be walked at some call (`refused`: recursion / nesting bound)"""
+
+    def __init__(self, F, fn, env, inlined, refused):
+        cw.Walk.__init__(self, F, fn, env)
+        self._inlined, self._refused = inlined, refused
+        self._inlined_calls = set()
+
+    def inline(self, g, e):
+        self._inlined.add(g.short)
+        self._inlined_calls.add(id(e))
+        cw.Walk.inline(self, g, e)
+
+    def call(self, e):
+        names = hir_callee(e)
+        movers = [n for n in names if n.startswith("compiler::Compiler::") and n not in self.KNOWN and self.moves_bookkeeping(n)]
+        cw.Walk.call(self, e)
+        if movers and id(e) not in self._inlined_calls:
+            self._refused.update(movers)
+
+
 def rule_s(F):
     res = []
     fns = [f for f in F.fns if f.hir and not f.is_closure and f.short.startswith("compiler::Compiler::")]
     totals = {"push": 0, "pop": 0, "scope_begin": 0, "scope_end": 0, "compile_begin": 0, "compile_end": 0}
+    inlined, refused = set(), set()
+    pending = []
     for f in fns:
         if f.name in BRACKETS:
             continue
@@ -249,7 +363,7 @@ def rule_s(F):
         else:
             units.append((f.name, f.hir["body"], {}))
         for label, body, env in units:
-            w = cw.Walk(F, f, env)
+            w = _SWalk(F, f, env, inlined, refused)
             # one entry pushed by the caller is in scope (process_function replaces it with `pop; push(i)`)
             w.stack = ["<caller>"]
             w.walk(body)
@@ -260,24 +374,71 @@ def rule_s(F):
             if not any(w.counts.values()):
                 continue
             probs = [p[0] for p in w.problems]
+            end = (w.scope, w.nest, len(w.stack))
+            end_probs = []
             if w.scope != 0:
-                probs.append("scope depth changes by %+d" % w.scope)
+                end_probs.append("scope depth changes by %+d" % w.scope)
             if w.nest != 0:
-                probs.append("nested-function depth changes by %+d" % w.nest)
+                end_probs.append("nested-function depth changes by %+d" % w.nest)
             if len(w.stack) != 0:
-                probs.append("sub-index stack depth changes by %+d" % len(w.stack))
+                end_probs.append("sub-index stack depth changes by %+d" % len(w.stack))
+            ret_probs = []
+            rets_like_end = True
             for ev in w.events:
-                if ev[0] == "ok_return" and (ev[4] != 0 or ev[5] != 0 or len(ev[2]) != 0):
-                    probs.append("early `return Ok` at line %s with scope %+d / nesting %+d / %d sub-indices still open" % (ev[3], ev[4], ev[5], len(ev[2])))
-            key = "C01/S/%s/balanced" % label
-            if probs:
-                res.append(bad("C01.S", key, f.loc(body.get("ln")), "; ".join(probs) + " — every local declared afterwards is addressed at the wrong stack slot / every later error location is wrong"))
-            else:
-                res.append(ok("C01.S", key, f.loc(body.get("ln")), "balanced (%s)" % ", ".join("%s=%d" % kv for kv in w.counts.items() if kv[1])))
+                if ev[0] != "ok_return":
+                    continue
+                open_idx = len([x for x in ev[2] if x != "<caller>"])     # the caller's own entry is not ours to pop
+                if (ev[4], ev[5], open_idx) != end:
+                    rets_like_end = False
+                if ev[4] != 0 or ev[5] != 0 or open_idx != 0:
+                    ret_probs.append("early `return Ok` at line %s with scope %+d / nesting %+d / %d sub-indices still open" % (ev[3], ev[4], ev[5], open_idx))
+            pending.append((f, label, body, w, probs, end_probs, ret_probs, rets_like_end, label == f.name))
+    callers_of = {}
+    for caller, sites in F.callgraph.sites.items():
+        for _bi, names, _t in sites:
+            for n in names:
+                callers_of.setdefault(n, set()).add(caller)
+    for f, label, body, w, probs, end_probs, ret_probs, rets_like_end, whole_fn in pending:
+        key = "C01/S/%s/balanced" % label
+        if not probs and (end_probs or ret_probs) and whole_fn and rets_like_end and f.short in inlined and f.short not in refused \
+                and f.raw.get("vis") != "Public" and callers_of.get(f.short) \
+                and all(c.startswith("compiler::Compiler::") for c in callers_of[f.short]):
+            # a private helper that ends (or begins) a bracket on behalf of its callers: it is walked in place of every call, so
+            # its effect is part of each caller's balance, which is decided there
+            res.append(ok("C01.S", key, f.loc(body.get("ln")),
+                          "not balanced by itself (%s): a private helper walked in place at every call, its callers' balance (%s) includes it"
+                          % ("; ".join(end_probs or ret_probs), ", ".join(sorted(c.rsplit("::", 1)[-1] if "{closure" not in c else c.split("::")[2] for c in callers_of[f.short])))))
+            continue
+        allp = probs + end_probs + ret_probs
+        if allp:
+            res.append(bad("C01.S", key, f.loc(body.get("ln")), "; ".join(allp) + " — every local declared afterwards is addressed at the wrong stack slot / every later error location is wrong"))
+        else:
+            res.append(ok("C01.S", key, f.loc(body.get("ln")), "balanced (%s)" % ", ".join("%s=%d" % kv for kv in w.counts.items() if kv[1])))
     if totals["scope_begin"] < 5 or totals["push"] < 8:
         raise AnchorMissing("bracket calls in Compiler (found %s)" % totals)
     res.append(ok("C01.S", "C01/S/totals", "", "bracket call sites: %s" % totals, **totals))
     return res
+
+
+def local_declarers(F):
+    """the Compiler methods that may declare a local: the declaration primitive (builds `Local { name, .. }`) and every
+    Compiler method that reaches it through Compiler methods which do not themselves compile cards (those are walked in
+    place by compwalk, so their declarations show up as events of their own)"""
+    prim, _pos = _decl_primitive(F)
+    out = {prim.short}
+    movers = cw.Walk(F, prim, {})
+    changed = True
+    while changed:
+        changed = False
+        for g in F.fns:
+            if g.hir is None or g.is_closure or not g.short.startswith("compiler::Compiler::") or g.short in out:
+                continue
+            if movers.moves_bookkeeping(g.short) or g.short in cw.Walk.KNOWN:
+                continue
+            if any(n in out for x in hir_walk(g.hir["body"]) if x.get("k") in ("call", "mcall") for n in hir_callee(x)):
+                out.add(g.short)
+                changed = True
+    return out
 
 
 def rule_a(F):
@@ -287,11 +448,12 @@ def rule_a(F):
     if arms is None:
         raise AnchorMissing("match on CardBody in process_card")
     n = 0
+    declarers = local_declarers(F)
     for arm in arms:
         names = [v for v in arm.variants if v != "_"]
         w = cw.Walk(F, fn, arm.env)
         w.walk(arm.body)
-        decls = [ev for ev in w.events if ev[0] == "emit" and ev[1].rsplit("::", 1)[-1] in ("add_local", "add_local_unchecked")]
+        decls = [ev for ev in w.events if ev[0] == "emit" and ev[1] in declarers]
         if not decls:
             continue
         n += 1
@@ -496,7 +658,10 @@ class ArmRun:
         elif k == "struct":
             sp = short(pat["path"]["res"].get("path", ""))
             for fl in pat["fields"]:
-                self.bind(fl["pat"], ("user", sp.rsplit("::", 1)[-1], fl["name"]) if sp.startswith("compiler::card::") else None, env)
+                if val is not None and val[0] == "struct":
+                    self.bind(fl["pat"], val[1].get(fl["name"]), env)
+                else:
+                    self.bind(fl["pat"], ("user", sp.rsplit("::", 1)[-1], fl["name"]) if sp.startswith("compiler::card::") else None, env)
         elif k in ("ref", "deref", "box", "guard"):
             self.bind(pat["pat"], val, env)
         elif k == "or":
@@ -578,11 +743,16 @@ class ArmRun:
         if k == "field":
             base = self.ev(e["e"], env, depth)
             ty = short(str(hu.strip_all(e["e"]).get("ty", "")).replace("&mut ", "").replace("&", "").strip()).split("<")[0]
+            if base is not None and base[0] == "struct":
+                return base[1].get(e["name"])
             if ty.startswith("compiler::card::"):
                 return ("user", ty.rsplit("::", 1)[-1], e["name"])
             if base is not None and base[0] == "tuple" and e["name"].isdigit() and int(e["name"]) < len(base[1]):
                 return base[1][int(e["name"])]
             return None
+        if k == "struct":
+            # a struct literal that carries values around (the hidden slots of a loop travelling together)
+            return ("struct", {fl["name"]: self.ev(fl["e"], env, depth) for fl in e["fields"]})
         if k == "block":
             return self.block(e["block"], dict_view(env), depth)
         if k == "closure":
@@ -1183,7 +1353,15 @@ def _c19_rule_x(F):
     return _c19.rule_x(F)
 
 
+def rule_w(F):
+    """C01.W: a string literal is a value whatever its length - the VM's string reader looks at the data section up to its
+    end (cao/strbound.py)."""
+    from cao import strbound
+    return strbound.rule_string_window(F, "C01.W", "C01/W")
+
+
 RULES = [
+    Rule("C01.W", rule_w, 1, "the VM's string reader accepts every string the compiler stores (no length window)"),
     Rule("C01.D", rule_d, 3, "loop bodies drop the values their statements leave behind, every iteration"),
     Rule("C01.G", rule_g, 1, "an unset global is distinguishable from every value a script can store"),
     Rule("C01.R", shared(_c19_rule_c, "C19.C", "C01.R"), 2, "Less / LessOrEq on numbers follow the payloads' own order (shared with C19.C)"),
